@@ -767,3 +767,66 @@ func firstLine(b []byte) string {
 }
 
 var _ = psql.NewPersistence
+
+
+// c20ViaBastion drives a C10 request script through the real endpoint and compares the witness counters with the
+// outcomes: every request that names a listed, known log and is neither malformed nor pushed back is ONE attempt.
+func c20ViaBastion(t *testing.T, p *Plan) *Outcome {
+	out := &Outcome{Stats: newStats()}
+	before := recorder.Snapshot()
+	r := c10Exec(t, p)
+	delta := recorder.Delta(before)
+	if r.infra != "" {
+		out.Infra = []string{r.infra}
+		return out
+	}
+	want := map[string]float64{}
+	mix := map[string]int{}
+	for _, q := range r.reqs {
+		first, _, _ := strings.Cut(string(q.Req.CP), "\n")
+		target := r.W.LogByID(LogID(first))
+		mix[fmt.Sprint(q.Status)]++
+		if q.Status == 429 || q.Calls == 0 || target == nil || q.Kind != "update" {
+			continue
+		}
+		id := target.ID
+		want[counterNames["attempt"]+"|"+id]++
+		switch q.Status {
+		case 200:
+			want[counterNames["success"]+"|"+id]++
+		case 422:
+			want[counterNames["bad_proof"]+"|"+id]++
+		case 409:
+			if q.Want == "root_mismatch" {
+				want[counterNames["inconsistent"]+"|"+id]++
+			}
+		}
+		out.Events = append(out.Events, fmt.Sprintf("%s %d", q.Want, q.Status))
+	}
+	keys := map[string]bool{}
+	for k := range want {
+		keys[k] = true
+	}
+	for k := range delta {
+		if strings.HasPrefix(k, "witness_update_") {
+			keys[k] = true
+		}
+	}
+	for k := range keys {
+		name, id, _ := strings.Cut(k, "|")
+		if name == counterNames["inconsistent"] || name == counterNames["bad_proof"] || name == counterNames["success"] {
+			// through the endpoint only the attempt counter is pinned down by the status alone (409 and 500 are shared by
+			// several verdicts); the others are compared only where the status decides them
+			if name == counterNames["success"] && want[k] != delta[k] {
+				out.Viol = append(out.Viol, Violation{Class: "counter_mismatch", Sig: "counter_mismatch/" + name + "/via_bastion", Detail: fmt.Sprintf("through the bastion endpoint: counter %s for log %s: got %v want %v; statuses %v", name, id[:8], delta[k], want[k], mix)})
+			}
+			continue
+		}
+		if want[k] != delta[k] {
+			out.Viol = append(out.Viol, Violation{Class: "counter_mismatch", Sig: "counter_mismatch/" + name + "/via_bastion", Detail: fmt.Sprintf("through the bastion endpoint: counter %s for log %s: got %v want %v (one request that reaches the witness is one attempt); statuses %v", name, id[:8], delta[k], want[k], mix)})
+		}
+	}
+	out.Distinct = []string{fmt.Sprintf("bastion/%v", mix)}
+	out.Stats.Probes["histories_via_bastion_endpoint"]++
+	return out
+}
